@@ -37,7 +37,8 @@ RULE = ("case = (loop kind, 1..2 locks, 0..2 events, 2..5 workers of kind Priori
         "cancel/task_throw/task_interrupt/set placed by handle count); corpus first, then random; thorough adds "
         "a bounded-exhaustive sweep of fault placements for small worker sets; a few % of the cases are directed: long waiter queues (9..12 / 17..25 waiters) with arrivals and cancels around a release, a user priority() that raises once inside acquire, duck-typed task classes, eagerly started acquires (oracles only).  Non-trivial = the run itself "
         "reached at least one of: fault delivered while waiting / woken-not-run / holding, a refused throw, a "
-        "hand-over caused by a waiter giving up, a contended hand-over.  distinct = hash of the canonical case")
+        "hand-over caused by a waiter giving up, a contended hand-over.  distinct = hash of the canonical case.  The corpus and a fixed grid of directed cases (a few "
+        "instances per directed generator kind, private generator with a constant seed) run first on every run")
 
 KINDS = {
     "mutual-exclusion": "at most one worker inside a PriorityLock",
@@ -97,7 +98,7 @@ def exhaustive(maxn):
 
 def run(ctx):
     rng = ctx.rng
-    S.explore(ctx, S.corpus_cases(PROP), KINDS, THEOREM, label="corpus: ", nontrivial=NONTRIVIAL)
+    S.explore(ctx, S.corpus_cases(PROP) + S.grid_cases(PROP), KINDS, THEOREM, label="corpus/grid: ", nontrivial=NONTRIVIAL)
     n = 30000 if ctx.thorough() else 3000
     def one():
         g = rng.random()
